@@ -71,3 +71,83 @@ impl BinOpTree {
         }
     }
 }
+
+// ---- C08: wf() + flat() determine the tree (the grouping the precedence rules prescribe is unique) ----
+impl BinOpTree {
+    /// every operator of the tree binds at least as tight as maxp says
+    proof fn lemma_maxp_bound(self, i: int)
+        requires self.wf(), 0 <= i < self.flat().len(), self.flat()[i] is O
+        ensures prec_spec(self.flat()[i]->O_0) as int <= self.maxp()
+        decreases self
+    {
+        match self {
+            BinOpTree::BinOp { op, left, right } => {
+                let l = left.flat(); let r = right.flat();
+                if i < l.len() { assert(self.flat()[i] == l[i]); left.lemma_maxp_bound(i); }
+                else if i == l.len() { assert(self.flat()[i] == Tok::O(op)); }
+                else { assert(self.flat()[i] == r[i - l.len() - 1]); right.lemma_maxp_bound(i - l.len() - 1); }
+            }
+            BinOpTree::Atom(e) => { assert(self.flat()[i] == Tok::A(e)); }
+            BinOpTree::Dummy => {}
+        }
+    }
+    proof fn lemma_flat_nonempty(self)
+        requires self.wf()
+        ensures self.flat().len() >= 1, self is Atom ==> (self.flat().len() == 1 && self.flat()[0] is A)
+        decreases self
+    {
+        match self {
+            BinOpTree::BinOp { op, left, right } => { left.lemma_flat_nonempty(); right.lemma_flat_nonempty(); }
+            _ => {}
+        }
+    }
+    /// two well-formed trees over the same operand / operator sequence are the same tree
+    proof fn lemma_unique(self, other: BinOpTree)
+        requires self.wf(), other.wf(), self.flat() == other.flat()
+        ensures self == other
+        decreases self
+    {
+        self.lemma_flat_nonempty(); other.lemma_flat_nonempty();
+        match (self, other) {
+            (BinOpTree::Atom(e1), BinOpTree::Atom(e2)) => { assert(self.flat()[0] == Tok::A(e1)); assert(other.flat()[0] == Tok::A(e2)); }
+            (BinOpTree::BinOp { op: o1, left: l1, right: r1 }, BinOpTree::BinOp { op: o2, left: l2, right: r2 }) => {
+                let f = self.flat();
+                let p1 = l1.flat().len() as int; let p2 = l2.flat().len() as int;
+                assert(f[p1] == Tok::O(o1));
+                assert(other.flat()[p2] == Tok::O(o2));
+                l1.lemma_flat_nonempty(); r1.lemma_flat_nonempty(); l2.lemma_flat_nonempty(); r2.lemma_flat_nonempty();
+                if p1 < p2 {
+                    // o1 sits in other's left part, o2 in self's right part
+                    assert(l2.flat()[p1] == other.flat()[p1]);
+                    l2.lemma_maxp_bound(p1);
+                    assert(r1.flat()[p2 - p1 - 1] == f[p2]);
+                    r1.lemma_maxp_bound(p2 - p1 - 1);
+                    assert(false);
+                }
+                if p2 < p1 {
+                    assert(l1.flat()[p2] == f[p2]);
+                    l1.lemma_maxp_bound(p2);
+                    assert(r2.flat()[p1 - p2 - 1] == other.flat()[p1]);
+                    r2.lemma_maxp_bound(p1 - p2 - 1);
+                    assert(false);
+                }
+                assert(l1.flat() =~= f.take(p1));
+                assert(l2.flat() =~= f.take(p1));
+                assert(r1.flat() =~= f.skip(p1 + 1));
+                assert(r2.flat() =~= f.skip(p1 + 1));
+                l1.lemma_unique(*l2);
+                r1.lemma_unique(*r2);
+                assert(o1 == o2);
+            }
+            (BinOpTree::Atom(e1), BinOpTree::BinOp { op, left, right }) => {
+                left.lemma_flat_nonempty(); right.lemma_flat_nonempty();
+                assert(false);
+            }
+            (BinOpTree::BinOp { op, left, right }, BinOpTree::Atom(e2)) => {
+                left.lemma_flat_nonempty(); right.lemma_flat_nonempty();
+                assert(false);
+            }
+            _ => {}
+        }
+    }
+}
